@@ -39,6 +39,7 @@ type Gen struct {
 	extH        map[string]uint64
 	pair        [2]string // (event type, mutated field) of the hash pair being emitted
 	genesisMode bool
+	mxProfile   bool // mloop profile (funding happens before the Minter side is started)
 	lastSendTag string
 	orchFromVals bool
 	closedLoop  bool // loop profile: execution claims are only those the ghost contracts / multisig would emit
@@ -657,6 +658,22 @@ func (g *Gen) runLedger(nops int) {
 		case x < 75 && g.rng.Intn(2) == 0:
 			// a governance proposal is dry-run on a branch that is thrown away (gov SubmitProposal / CheckTx)
 			g.do(fmt.Sprintf("world dryrun:tokens:%d", []int64{0, 50000000000000000, 900000000000000000}[g.rng.Intn(3)]))
+		case x < 81 && x >= 79 && g.mon != nil && g.mon.prop == "C06":
+			// two assets of one chain with identical pending fees when the next batching round comes: any order taken from a
+			// map shows in the batch nonces
+			chain := g.pick([]string{"ethereum", "bsc", "minter"})
+			if toks := g.tokensOn(chain); len(toks) >= 2 {
+				i := g.rng.Intn(len(toks))
+				j := (i + 1 + g.rng.Intn(len(toks)-1)) % len(toks)
+				fee := []string{"1000000000000000", "0", "5000000000000000000"}[g.rng.Intn(3)]
+				for _, t := range []tokSpec{toks[i], toks[j]} {
+					g.do(fmt.Sprintf("fund %s %s 1000000000000000000000", g.accounts[0], t.denom))
+					g.do(fmt.Sprintf("send %s %s %s %s %d %s %s", g.accounts[0], chain, g.pick(g.recips), t.denom, 1000000000000000000, fee, g.nextTag()))
+				}
+				g.stats["det:two-assets-with-equal-pending-fees"]++
+				g.block()
+				g.block()
+			}
 		case x < 79 && g.mon != nil && g.mon.prop == "C06" && g.rng.Intn(2) == 0:
 			// governance changes the chain list through the params module; afterwards one node restarts (new keeper
 			// objects over the same stores) while the others keep running: they must stay in step
